@@ -1,0 +1,11 @@
+// Copyright 2019 The Scriggo Authors. All rights reserved.
+// Use of this source code is governed by a BSD-style
+// license that can be found in the LICENSE file.
+
+//go:build !verif
+
+package compiler
+
+// simTokens returns tokens. With the verif build tag it can return a channel
+// with a different capacity.
+func simTokens(tokens chan token) chan token { return tokens }
